@@ -414,7 +414,10 @@ def Sign1.sign (m : Sign1Msg) (external : Option Bytes) (s : Signer) : Res Sign1
       (match Sign1.toBeSigned m1 external with
        | .ok tbs =>
          (match s.sign tbs with
-          | .ok sig => ⟨{ m1 with sig := some sig }, .ok (), [tbs]⟩
+          | .ok sig =>
+            -- a signer that reports success must have produced a signature
+            if sig.length = 0 then ⟨m1, .err .emptySig, [tbs]⟩
+            else ⟨{ m1 with sig := some sig }, .ok (), [tbs]⟩
           | .err e => ⟨m1, .err e, [tbs]⟩
           | .panic => ⟨m1, .panic, [tbs]⟩
           | .unmodelled => ⟨m1, .unmodelled, [tbs]⟩)
@@ -465,7 +468,10 @@ def Signature.sign (sg : SigV) (s : Signer) (bprot : Bytes) (payload external : 
       (match Signature.toBeSigned s1 bprot payload external with
        | .ok tbs =>
          (match s.sign tbs with
-          | .ok sig => ⟨{ s1 with sig := some sig }, .ok (), [tbs]⟩
+          | .ok sig =>
+            -- a signer that reports success must have produced a signature
+            if sig.length = 0 then ⟨s1, .err .emptySig, [tbs]⟩
+            else ⟨{ s1 with sig := some sig }, .ok (), [tbs]⟩
           | .err e => ⟨s1, .err e, [tbs]⟩
           | .panic => ⟨s1, .panic, [tbs]⟩
           | .unmodelled => ⟨s1, .unmodelled, [tbs]⟩)
@@ -613,7 +619,10 @@ def Countersignature.sign (cs : SigV) (s : Signer) (parent : Parent) (external :
       (match Countersignature.toBeSigned s1 parent external with
        | .ok tbs =>
          (match s.sign tbs with
-          | .ok sig => ⟨{ s1 with sig := some sig }, .ok (), [tbs]⟩
+          | .ok sig =>
+            -- a signer that reports success must have produced a signature
+            if sig.length = 0 then ⟨s1, .err .emptySig, [tbs]⟩
+            else ⟨{ s1 with sig := some sig }, .ok (), [tbs]⟩
           | .err e => ⟨s1, .err e, [tbs]⟩
           | .panic => ⟨s1, .panic, [tbs]⟩
           | .unmodelled => ⟨s1, .unmodelled, [tbs]⟩)
@@ -639,10 +648,13 @@ def Countersignature.verify (cs : SigV) (v : Verifier) (parent : Parent) (extern
     | .panic => (.panic, [])
     | .unmodelled => (.unmodelled, [])
 
-/-- `Countersign0`: returns whatever the signer returns -/
+/-- `Countersign0`: returns what the signer returns, an empty signature being an error -/
 def countersign0 (s : Signer) (parent : Parent) (external : Option Bytes) : Out Bytes × List Bytes :=
   match countersignToBeSigned true parent [0x40] external with
-  | .ok tbs => (s.sign tbs, [tbs])
+  | .ok tbs =>
+    (match s.sign tbs with
+     | .ok sig => if sig.length = 0 then (.err .emptySig, [tbs]) else (.ok sig, [tbs])
+     | o => (o, [tbs]))
   | .err e => (.err e, [])
   | .panic => (.panic, [])
   | .unmodelled => (.unmodelled, [])
